@@ -1,6 +1,7 @@
 package main
 
 import (
+	"go/token"
 	"fmt"
 	"strings"
 
@@ -439,4 +440,118 @@ func afterLoopHead(ret *ssa.Return) bool {
 		}
 	}
 	return false
+}
+
+// ruleZeroCountMeansBuffered (R05.21): Reader.Read tells "the block went straight into the caller's buffer" from
+// "the block is waiting in r.data" by the count Reader.read returns (0 = look in r.data). A return of Reader.read
+// without error therefore either has put this block into r.data (a store to the field on the way), or reports a
+// count known to be positive. A direct decode of an empty block that returns 0 with r.data untouched makes Read
+// deliver whatever the block buffer held before: bytes that are not in the stream, under a clean end of stream.
+func ruleZeroCountMeansBuffered(c *Check, p *Program, rule string) {
+	fn := findFn(c, p, rule, "", "Reader.read")
+	if fn == nil {
+		return
+	}
+	sameLen := func(a, b ssa.Value) bool {
+		if a == b {
+			return true
+		}
+		ca, okA := a.(*ssa.Call)
+		cb, okB := b.(*ssa.Call)
+		if !okA || !okB {
+			return false
+		}
+		ba, isA := ca.Call.Value.(*ssa.Builtin)
+		bb, isB := cb.Call.Value.(*ssa.Builtin)
+		return isA && isB && ba.Name() == "len" && bb.Name() == "len" && ca.Call.Args[0] == cb.Call.Args[0]
+	}
+	n := 0
+	allInstrs(fn, func(in ssa.Instruction) {
+		r, ok := in.(*ssa.Return)
+		if !ok || len(r.Results) != 2 || !isNilConst(r.Results[1]) {
+			return
+		}
+		n++
+		c.Sites++
+		cnt := r.Results[0]
+		key := fmt.Sprintf("Reader.read#zero-count-means-buffered#%d", n)
+		desc := "a return of Reader.read without error has stored this block in r.data, or reports a count known to be positive (Read takes 0 to mean: the block is in r.data)"
+		if k, isK := constUint(cnt); isK && k > 0 {
+			c.Cond(true, rule, key, p.InstrPos(in), desc, "positive constant", "")
+			return
+		}
+		type st struct {
+			b  *ssa.BasicBlock
+			ok bool
+		}
+		seen := map[st]bool{}
+		bad := false
+		var walk func(s st)
+		walk = func(s st) {
+			if seen[s] || bad {
+				return
+			}
+			seen[s] = true
+			okNow := s.ok
+			for _, j := range s.b.Instrs {
+				if sto, isS := j.(*ssa.Store); isS && lastField(sto.Addr) == "Reader.data" {
+					okNow = true
+				}
+				if j == in {
+					if !okNow {
+						bad = true
+					}
+					return
+				}
+				if isReturn(j) {
+					return
+				}
+			}
+			ifi, isIf := s.b.Instrs[len(s.b.Instrs)-1].(*ssa.If)
+			for k, nx := range s.b.Succs {
+				e := okNow
+				if isIf && len(s.b.Succs) == 2 {
+					if bo, isB := ifi.Cond.(*ssa.BinOp); isB {
+						x, y := bo.X, bo.Y
+						op := bo.Op
+						if _, isK := constUint(x); isK {
+							x, y = y, x
+							switch op {
+							case token.LSS:
+								op = token.GTR
+							case token.GTR:
+								op = token.LSS
+							case token.LEQ:
+								op = token.GEQ
+							case token.GEQ:
+								op = token.LEQ
+							}
+						}
+						if kv, isK := constUint(y); isK && sameLen(x, cnt) {
+							pos := false
+							switch {
+							case kv == 0 && (op == token.GTR || op == token.NEQ):
+								pos = k == 0
+							case kv == 0 && (op == token.EQL || op == token.LEQ):
+								pos = k == 1
+							case kv == 1 && op == token.GEQ:
+								pos = k == 0
+							case kv == 1 && op == token.LSS:
+								pos = k == 1
+							}
+							if pos {
+								e = true
+							}
+						}
+					}
+				}
+				walk(st{nx, e})
+			}
+		}
+		walk(st{fn.Blocks[0], false})
+		c.Cond(!bad, rule, key, p.InstrPos(in), desc, "every path to the return stores r.data or passes a test that the count is positive", "the return can report 0 (an empty block decoded straight into the caller's buffer) while r.data still holds what it held before: Reader.Read then copies the old contents of the block buffer - bytes that are not in the stream - to the caller and ends with a clean io.EOF")
+	})
+	if n == 0 {
+		c.Fail(rule, "Reader.read#zero-count-means-buffered", p.Pos(fn.Pos()), "the error-free returns of Reader.read are resolved", "no return with a nil error constant found (anchor unresolved)")
+	}
 }
